@@ -2,7 +2,7 @@
 import hashlib
 
 NA = "006e61"  # hex of "\x00na"
-FIELDS = ("route=", "u0=", "u1=", "chains=", "ran=", "long=", "code=", "dirty=")
+FIELDS = ("route=", "u0=", "u1=", "chains=", "ran=", "long=", "code=", "dirty=", "laws=")
 
 
 def parse_out(line):
@@ -69,6 +69,9 @@ def cmp_dispatch(sess, R, M, params=False, chains=False, setup=False, urls=False
             continue
         if (params or chains) and r.get("dirty", "0") != "0":
             bad.append(i)      # parameters written by an earlier request's handler leaked into this request
+            continue
+        if params and r.get("laws", "0") != "0" and set(r["laws"].split(",")) & set(m["params"].keys()):
+            bad.append(i)      # EngineLaws monitor: a value of the WINNING form does not match its own expression in full
             continue
         if params or op.startswith("IREQ "):
             ok = all(r["params"].get(k, "<none>") == v for k, v in m["params"].items())
